@@ -243,6 +243,11 @@ func runCase(c Case, outdir string) (Event, []Job) {
 	}
 	g0, j0, p0, v0 := judgeSide(c, 0, in)
 	g1, j1, p1, v1 := judgeSide(c, 1, out1)
+	if c.Lang == "svg" && g0["svg.xml"] != 0 {
+		// the input is not well-formed XML: its path data cannot be enumerated, so the path goal has no "valid input" side
+		delete(g0, "svg.path")
+		p0, v0, p1, v1 = nil, nil, nil, nil
+	}
 	var names []string
 	for k := range g0 {
 		names = append(names, k)
